@@ -338,33 +338,17 @@ def deep_compare(obj1: Any,
                         msg = msg_tmpl.format(value1, value2)
                         raise xpath_error('XPTY0004', msg, token)
 
-                    elif isinstance(value1, float):
-                        if math.isnan(value1):
-                            if not isinstance(value2, (float, Decimal)) \
-                                    or not math.isnan(value2):
-                                return -1
-                        elif math.isinf(value1):
-                            if value1 != value2:
-                                return -1 if value1 < value2 else 1
-                        elif isinstance(value2, Decimal):
-                            if value1 != float(value2):
-                                return -1 if value1 < float(value2) else 1
-                        elif not isinstance(value2, (value1.__class__, int)):
-                            return -1
-                        elif value1 != value2:
-                            return -1 if value1 < value2 else 1
+                    elif isinstance(value1, float) or isinstance(value2, float):
+                        if not isinstance(value1, (int, float, Decimal)) or \
+                                not isinstance(value2, (int, float, Decimal)):
+                            msg = msg_tmpl.format(value1, value2)
+                            raise xpath_error('XPTY0004', msg, token)
 
-                    elif isinstance(value2, float):
-                        if math.isnan(value2):
-                            return -1
-                        elif math.isinf(value2):
-                            if value1 != value2:
-                                return -1 if value1 < value2 else 1
-                        elif isinstance(value1, Decimal):
-                            if value2 != float(value1):
-                                return -1 if float(value1) < value2 else 1
-                        elif not isinstance(value1, (value2.__class__, int)):
-                            return -1
+                        nan1 = isinstance(value1, float) and math.isnan(value1)
+                        nan2 = isinstance(value2, float) and math.isnan(value2)
+                        if nan1 or nan2:
+                            if nan1 != nan2:
+                                return -1 if nan1 else 1  # NaN is less than any other value
                         elif value1 != value2:
                             return -1 if value1 < value2 else 1
 
